@@ -202,6 +202,14 @@ def check_files(enc, sc, fail, geti=None, note=None, index_bytes=None, label='en
         note('index-only')
 
 
+def _index_formula(full, v, i, n):
+    import z3
+    from ..sx import ex
+    ie = ex(i)
+    pos = z3.If(ie < 0, ie + n, ie)
+    return z3.And(*[z3.Implies(pos == k, z3.BoolVal(full[k] == v)) for k in range(n)])
+
+
 def _writer_program(i):
     """writer-produced file + the writer's own index (concrete programs)"""
     import numpy as np
@@ -216,7 +224,7 @@ def _writer_program(i):
     return data.getvalue(), index.getvalue()
 
 
-def _check_writer(i, sc, fail, note=None):
+def _check_writer(i, sc, fail, note=None, geti=None, prove=None):
     from nptdms import TdmsFile
     data, index = _writer_program(i)
     plain = sc.write('w_plain.tdms', data)
@@ -241,6 +249,34 @@ def _check_writer(i, sc, fail, note=None):
             tf.close()
         if got != ref:
             fail('writer-index-differs', api=api, got=str(got)[:300], expected=str(ref)[:300])
+    # lazily opened with the writer's index: a window and an integer index of channel g/a (requests are solver variables)
+    if geti is not None:
+        with TdmsFile.read(plain) as tfp:
+            full = [int(v) for v in tfp['g']['a'][:]]
+        n = len(full)
+        for which in ('indexed', 'plain'):
+            tf = TdmsFile.open(indexed if which == 'indexed' else plain)
+            try:
+                ch = tf['g']['a']
+                o, l = geti('offset', 0, None), geti('length', 0, None)
+                try:
+                    got = [int(v) for v in ch.read_data(o, l)]
+                except PathAbort:
+                    raise
+                except Exception as e:
+                    fail('writer-index-window-exception', conf=which, exc=type(e).__name__, msg=str(e)[:100])
+                prove(s1.window_formula(full, got, o, l, n), dict(conf=which, got=got), 'writer-index-window')
+                i_ = geti('index', -n, n - 1)
+                try:
+                    v = int(ch[i_])
+                except PathAbort:
+                    raise
+                except Exception as e:
+                    fail('writer-index-index-exception', conf=which, exc=type(e).__name__, msg=str(e)[:100])
+                prove(s1.index_formula(full, v, i_, n) if hasattr(s1, 'index_formula') else _index_formula(full, v, i_, n),
+                      dict(conf=which, got=v), 'writer-index-index')
+            finally:
+                tf.close()
     refm = [x[:4] + (None,) if len(x) == 5 else x for x in ref]
     for p in (indexed, alone):
         tf = TdmsFile.read_metadata(p)
@@ -335,9 +371,10 @@ def run_task(task):
         def fnw(ctx):
             with Scratch() as sc:
                 ctx.obligations += 1
-                _check_writer(task['prog'], sc, lambda what, **kw: ctx.fail(what, **kw), ctx.note)
+                _check_writer(task['prog'], sc, lambda what, **kw: ctx.fail(what, **kw), ctx.note, ctx.int,
+                              lambda p, d, w: ctx.prove(p, d, what=w))
                 ctx.discharged += 1
-        st = explore(fnw, max_paths=10)
+        st = explore(fnw, max_paths=20000, time_budget=600)
         st.pop('wall_s', None)
         return st
     enc = s1.build(task['shape'])
@@ -412,7 +449,11 @@ def replay(art):
     try:
         with Scratch() as sc:
             if task['kind'] == 'writer':
-                _check_writer(task['prog'], sc, fail)
+                def _prove(p, d, w):
+                    import z3
+                    if not z3.is_true(z3.simplify(p)):
+                        fail(w, **d)
+                _check_writer(task['prog'], sc, fail, None, lambda name, lo, hi: inp.get(name, lo if lo is not None else 0), _prove)
             else:
                 enc = s1.build(task['shape'])
                 for item in check_files(enc, sc, fail, lambda name, lo, hi: inp.get(name, 0)):
